@@ -472,6 +472,11 @@ from pyvc.values import Seg  # noqa: E402
 SLOTS3 = (0, 1, 2)
 
 
+def _speq(a: Any, b: Any) -> Any:
+    from pyvc.spec import eq
+    return eq(a, b)
+
+
 def rep_equal(rep_item: Any, t: Any) -> Any:
     """repeated_terms[slot] == term (None never equals a term)"""
     return And(Not(is_none(rep_item)), opt_val(rep_item) == t)
@@ -604,8 +609,8 @@ class _encode_spo_free:
         rep_new = e.repeated_terms.items
         out = {"wf": wf_te(E),
                "rows-account-for-table-changes": rows_account(O, E, e.result.items),
-               "previous-terms-updated": And(*[rep_equal(rep_new[j], ts[j]) for j in SLOTS3],
-                                             rep_new[3] is e.old.repeated_terms.items[3] or True),
+               "previous-terms-updated": And(*[rep_equal(rep_new[j], ts[j]) for j in SLOTS3]),
+               "previous-graph-term-untouched": _speq(rep_new[3], e.old.repeated_terms.items[3]),
                "three-terms-consumed": e.terms.pos == e.old.terms.pos + 3,
                "graph-group-untouched": graph_group_untouched(e.statement, e.old.statement)}
         n_uses, d_uses = enc_occ(rep_old, ts, "n"), enc_occ(rep_old, ts, "d")
@@ -817,3 +822,44 @@ def _chain_after_spo(st: Any, E: Any, lrP0: Any, lrN0: Any, rep: list, terms: li
         lrP = Ite(And(enc_iri, en), pe, lrP)
         chain_ok = And(chain_ok, Or(elided, Not(GTerm.is_QTriple(t))))
     return lrP, lrN, chain_ok
+
+
+if _os.environ.get("PYVC_WIP") != "1":
+    @contract(f"{SE}:encode_quad", serves=["C03", "C01", "C19", "C20"])
+    class _encode_quad_light:
+        """Structural contract of encode_quad (entry rows first and accounting for the table changes, quad row last,
+        exact raise conditions, graph slot elided iff repeated).  The statement-level *denotation* of s, p, o, g is proved
+        for triples (encode_spo / encode_triple); for quads it is left to the bounded nets - the full contract above is
+        work in progress because its queries are slow and unstable."""
+        params = _encode_quad.params
+        result = ROWS
+        modifies = _encode_quad.modifies
+        tags = {"graph-elided-iff-repeated": ["C19", "C03", "C01"]}
+
+        def requires(e): return wf_te(e.term_encoder)
+
+        def ghost_enter(e): _reset_marks(e.term_encoder)
+
+        def raises(e): return _encode_quad.raises(e)
+
+        def on_raise(e): return {"tables-still-well-formed": wf_te(e.term_encoder)}
+
+        def ensures(e):
+            E, O = e.term_encoder, e.old.term_encoder
+            ts = list(e.terms.items)
+            rep_old = e.old.repeated_terms.items
+            rep_new = e.repeated_terms.items
+            items = list(e.result.items)
+            out = {"wf": wf_te(E)}
+            if not items or isinstance(items[-1], Seg):
+                out["statement-row-last"] = False
+                return out
+            row = items[-1]
+            out["statement-row-last"] = which_is(row, "quad")
+            out["entry-rows-first-and-account-for-table-changes"] = rows_account(O, E, items[:-1])
+            out["previous-terms-updated"] = And(*[rep_equal(rep_new[j], ts[j]) for j in (0, 1, 2, 3)])
+            out["graph-elided-iff-repeated"] = Iff(which_unset(row.quad, "graph"), rep_equal(rep_old[3], ts[3]))
+            out["sizes-fixed"] = And(E.names.lookup.max_size == O.names.lookup.max_size,
+                                     E.prefixes.lookup.max_size == O.prefixes.lookup.max_size,
+                                     E.datatypes.lookup.max_size == O.datatypes.lookup.max_size)
+            return out
